@@ -322,6 +322,38 @@ def _check_type_requirements_for_field(
             )
             return
 
+    if (
+        field_is_atomic
+        and referenced_type_definition.has_field("structure")
+        and referenced_type_definition.addressable_unit == ir_data.AddressableUnit.BIT
+        and type_definition.addressable_unit == ir_data.AddressableUnit.BYTE
+    ):
+        # A `bits` is read and written as a single integer, so the field that
+        # holds it must have a known size of at most 64 bits -- even if the
+        # members of an anonymous `bits` only use some of them.
+        if field_min_size != field_max_size:
+            errors.append(
+                [
+                    error.error(
+                        source_file_name,
+                        field.source_location,
+                        "`bits` fields must have a constant size.",
+                    )
+                ]
+            )
+            return
+        if field_max_size > 64:
+            errors.append(
+                [
+                    error.error(
+                        source_file_name,
+                        field.source_location,
+                        "`bits` fields must be 64 bits or smaller.",
+                    )
+                ]
+            )
+            return
+
     # If we're here, then field/type sizes are consistent.
     if element_size is None and field_is_atomic and field_min_size == field_max_size:
         # From here down, we just use element_size.
